@@ -321,6 +321,25 @@ fn operator(op: Op) -> Operator {
 
 /// AST → logical expression. Column `i` becomes the unqualified column `col_name(i, ty)`.
 pub fn to_expr(e: &E, specs: &[ColSpec]) -> Expr {
+    to_expr_opt(e, specs, false)
+}
+
+/// `expand_coalesce`: render `coalesce(a, b, ..)` / `nvl(a, b)` as their SQL definition
+/// `CASE WHEN a IS NOT NULL THEN a WHEN b IS NOT NULL THEN b .. ELSE last END` (the `coalesce` UDF refuses to be
+/// evaluated unless the simplifier has rewritten it, so the evaluated ORIGINAL uses the definition).
+pub fn to_expr_opt(e: &E, specs: &[ColSpec], expand_coalesce: bool) -> Expr {
+    let to_expr = |x: &E, specs: &[ColSpec]| to_expr_opt(x, specs, expand_coalesce);
+    if expand_coalesce {
+        if let E::Func(Fun::Coalesce | Fun::Nvl, args) = e {
+            if let Some((last, init)) = args.split_last() {
+                if init.is_empty() {
+                    return to_expr(last, specs);
+                }
+                let whens = init.iter().map(|a| (Box::new(Expr::IsNotNull(Box::new(to_expr(a, specs)))), Box::new(to_expr(a, specs)))).collect();
+                return Expr::Case(Case::new(None, whens, Some(Box::new(to_expr(last, specs)))));
+            }
+        }
+    }
     let b = |x: &E| Box::new(to_expr(x, specs));
     match e {
         E::Col(i) => Expr::Column(Column::new_unqualified(col_name(*i, specs[*i as usize].ty))),
